@@ -1,6 +1,47 @@
+(* ops answered by coq/Hand/Cli.v (+ Lexopt.v, Json.v), extracted:
+     cli <version-hex> <now> <argc> <hex arg>...   ->   exit=<0|1>;stdout=<hex>
+   <version-hex>, <hex arg> = 'x' followed by the hex bytes (util.ml); <now> = the current Julian day number,
+   or 'u' followed by the Unix time in seconds; argv WITHOUT the program name.  A model Panic surfaces as the
+   driver's PANIC line.  Trusted for the correspondence only: argument decoding and printing. *)
 module ZA = Z
 type ostring = string
 open Jv
 open Util
 
-let eval (toks : ostring list) : ostring = ignore toks; raise Unsupported
+let bytes_of (s : ostring) : z list = List.init (String.length s) (fun i -> zi (Char.code s.[i]))
+
+(* code points -> UTF-8 (the model's output is proved ASCII; encode anyway) *)
+let utf8_of (cps : z list) : ostring =
+  let buf = Buffer.create 64 in
+  List.iter (fun c ->
+      let c = ZA.to_int (zarith_of_z c) in
+      if c < 0x80 then Buffer.add_char buf (Char.chr c)
+      else if c < 0x800 then (Buffer.add_char buf (Char.chr (0xC0 lor (c lsr 6)));
+                              Buffer.add_char buf (Char.chr (0x80 lor (c land 0x3F))))
+      else if c < 0x10000 then (Buffer.add_char buf (Char.chr (0xE0 lor (c lsr 12)));
+                                Buffer.add_char buf (Char.chr (0x80 lor ((c lsr 6) land 0x3F)));
+                                Buffer.add_char buf (Char.chr (0x80 lor (c land 0x3F))))
+      else (Buffer.add_char buf (Char.chr (0xF0 lor (c lsr 18)));
+            Buffer.add_char buf (Char.chr (0x80 lor ((c lsr 12) land 0x3F)));
+            Buffer.add_char buf (Char.chr (0x80 lor ((c lsr 6) land 0x3F)));
+            Buffer.add_char buf (Char.chr (0x80 lor (c land 0x3F))))) cps;
+  Buffer.contents buf
+
+let now_of (t : ostring) : z =
+  if String.length t > 1 && t.[0] = 'u' then i64 (String.sub t 1 (String.length t - 1))
+  else
+    let j = zarith_of_z (i32 t) in
+    z_of_zarith (ZA.mul (ZA.sub j (ZA.of_int 2440588)) (ZA.of_int 86400))
+
+let eval (toks : ostring list) : ostring =
+  match toks with
+  | "cli" :: version :: now :: argc :: args ->
+    let n = (try int_of_string argc with _ -> raise Bad_case) in
+    if n <> List.length args then raise Bad_case;
+    (* the version text is ASCII: bytes = code points *)
+    let version = bytes_of (unhex version) in
+    let argv = List.map (fun a -> bytes_of (unhex a)) args in
+    (match run (cli_main_exec version (now_of now) argv) with
+     | Exit0 lines -> "exit=0;stdout=" ^ hex_of (utf8_of (stdout_of lines))
+     | ExitErr -> "exit=1;stdout=" ^ hex_of "")
+  | _ -> raise Unsupported
